@@ -3,7 +3,7 @@ GROUPS = [
       functions=[], timeout=300,
       what='every static *_iCDF / *_icdf table found in silk/tables_*.c, celt/celt.h, celt/quant_bands.c (list extracted from /repo each run): strictly decreasing per zero-terminated sub-table, last entry 0'),
 ]
-META = {}
+META = {'cex': {'self': True, 'timeout': 900}}
 GROUPS += [
  dict(name='pvq_layout', cls='F', tu='C17_pvq.c', entry='h_pvq_layout', dfcc=False, unwind=16, functions=[], timeout=120,
       what='CELT_PVQ_U_ROW pointers tile CELT_PVQ_U_DATA exactly; row extents monotone'),
@@ -11,12 +11,6 @@ GROUPS += [
       what='U(0,K) base case and U(N,K)=U(N-1,K)+U(N,K-1)+U(N-1,K-1) in 64-bit arithmetic for every stored table entry (symbolic N,K)'),
 ]
 GROUPS += [
- dict(name='pvq_bijection_b', cls='B', tu='C17_pvq.c', entry='h_pvq_bijection', dfcc=False, unwind=9, functions=['cwrsi', 'icwrs'], timeout=600,
-      bounds='N <= 5, K <= 6 (index fully symbolic below V(N,K))',
-      what='cwrsi then icwrs is the identity and the decoded vector has exactly K pulses, bounded grid'),
- dict(name='pvq_bijection_b_thorough', cls='B', tier='thorough', tu='C17_pvq.c', entry='h_pvq_bijection', dfcc=False, unwind=14, functions=['cwrsi', 'icwrs'], timeout=3000,
-      defines=['-DVERIF_PVQ_NMAX=8', '-DVERIF_PVQ_KMAX=10'], bounds='N <= 8, K <= 10',
-      what='cwrsi then icwrs is the identity, larger grid'),
 ]
 
 for _lm in range(4):
@@ -25,3 +19,8 @@ for _lm in range(4):
             defines=['-DVERIF_LM=%d' % _lm, '-DVERIF_INTRA=%d' % _intra], functions=['ec_laplace_encode', 'ec_laplace_decode', 'ec_laplace_get_freq1'],
             trusted=['recording stubs for ec_decode_bin / ec_dec_update / ec_encode_bin (capture only; real contracts are enforced under C08)'],
             timeout=900, what='Laplace coder, the 21 (fs,decay) pairs of e_prob_model[%d][%d]: intervals tile [0,32768), decode inverts encode; code point and value fully symbolic' % (_lm, _intra)))
+
+for (_n, _k, _tier) in ((3, 3, 'quick'), (4, 2, 'quick'), (3, 5, 'quick'), (4, 4, 'thorough'), (5, 3, 'thorough'), (6, 4, 'thorough'), (4, 8, 'thorough'), (8, 4, 'thorough')):
+    GROUPS.append(dict(name='pvq_bijection_n%dk%d' % (_n, _k), cls='B', tier=_tier, tu='C17_pvq.c', entry='h_pvq_bijection', dfcc=False, unwind=_n + _k + 2,
+        defines=['-DVERIF_PVQ_N=%d' % _n, '-DVERIF_PVQ_K=%d' % _k], functions=['cwrsi', 'icwrs'], timeout=3600, mem_gb=20,
+        bounds='N=%d, K=%d, every index below V(N,K) symbolic' % (_n, _k), what='cwrsi then icwrs is the identity and the decoded vector has exactly K pulses'))
